@@ -9,6 +9,7 @@ from ..facts import AnalysisBroken
 from ..model import sx, walk, is_var, is_field, const_of, vars_in, root_var, same, on_path
 from .. import rules, core, holds
 from .c04 import slot_impls
+from ..report import Remap
 
 EXPLANATION = (
     'Rules: (TAB.1) in the reply handlers every text slice reply+k handed to an emitter is dominated by '
@@ -19,7 +20,8 @@ EXPLANATION = (
     'service; (BND.1) the account copy stops at the first space, at the NUL and at the length limit and '
     'is NUL-terminated on every path; (FMT.1) the accept line has exactly the forms R acct class / R acct '
     '/ D class / D under the matching emptiness tests, bound to the request\'s account and class; challenge '
-    'and kill lines are bound to their text parameter; (GRD.1) after an account is stamped, every path '
+    'and kill lines are bound to their text parameter; (FMT.2) the class rules cut the account stamp at its '
+    'first colon by an exact prefix copy and choose rule->class or else the rule name; (GRD.1) after an account is stamped, every path '
     'on which +x or +! is requested sends user mode +x.  String contents are not decided.')
 ASSUMPTIONS = ['clang 14 CFG', 'strncmp(s, lit, n)==0 with n == len(lit) fixes the first n bytes of s']
 
@@ -294,6 +296,9 @@ def plus_x(P, R, writers):
 
 
 def run(P, R, tier):
+    # the class reported with the verdict depends on how the class rules read the account stamp
+    from . import c11
+    c11.matcher(P, Remap(R, {'C11.FMT.1': 'C05.FMT.2'}))
     slices(P, R)
     w = account_writers(P, R)
     account_copy(P, R, w)
